@@ -204,12 +204,20 @@ where
     } else if let Some(buf) = src.get(..BAM_MAGIC_NUMBER.len()) {
         if buf == BAM_MAGIC_NUMBER {
             return Ok(Format::Bam);
-        } else if buf == CRAM_MAGIC_NUMBER {
+        } else if buf == CRAM_MAGIC_NUMBER && has_cram_format_version(&src[buf.len()..]) {
             return Ok(Format::Cram);
         }
     }
 
     Ok(Format::Sam)
+}
+
+// The CRAM magic number is followed by the format version (major, minor). Checking that these
+// are small numbers distinguishes a CRAM file definition from headerless SAM text whose first
+// read name starts with "CRAM".
+fn has_cram_format_version(src: &[u8]) -> bool {
+    const MAX_VERSION_NUMBER: u8 = 7;
+    src.iter().take(2).all(|&n| n <= MAX_VERSION_NUMBER)
 }
 
 #[cfg(test)]
